@@ -63,6 +63,25 @@ DomOK_ == Directed => \A r \in V : \A v \in Reach(E, r) \ {r} :
             /\ IDom(E, r, v) \in Reach(E, r)
             /\ IDomTree(E, r)[v] = IDom(E, r, v)
 
+\* control flow intervals: growth = definition for EVERY header candidate, the intervals partition what the entry
+\* reaches, every interval is entered only at its header, the header lies on all its closed paths, no node can be
+\* added, and the paper's one-at-a-time procedure gives the same family in every processing order
+IntervalOK_ == Directed => \A r \in V :
+     LET IV == Intervals(E, r) R == Reach(E, r) IN
+     /\ \A h \in V : Interval(E, r, h) = IvDef(V, E, r, h) /\ IvValid(E, r, h, Interval(E, r, h))
+     /\ IsPartition({iv[2] : iv \in IV}, R) /\ Cardinality({iv[2] : iv \in IV}) = Cardinality(IV)
+     /\ \E iv \in IV : iv[1] = r
+     /\ \A iv \in IV : /\ iv[1] \in iv[2]
+                       /\ \A e \in E : (e[2] \in iv[2] /\ e[1] \notin iv[2]) => e[2] = iv[1]
+                       /\ \A v \in (V \ iv[2]) \ {r} : ~(Pred(E, v) # {} /\ Pred(E, v) \subseteq iv[2])
+     /\ IvSeqAll(E, r, {}, {r}) = {IV}
+     /\ \A d \in IvGraphEdges(E, r) : d[1] # d[2] /\ d[1] \in {iv[1] : iv \in IV} /\ d[2] \in {iv[1] : iv \in IV}
+     /\ (("pending" \notin IvTags(E, r)) => \A S \in IvSeqAll(E, r, {}, {r}) : S = IV)
+\* IsPathIn against the definition by consecutive pairs of a walk; Equal against equality of node and arc sets
+WalkOK_ == \A p \in UNION {[1 .. k -> V \cup {N + 1}] : k \in 0 .. 3} :
+              IsPathIn(V, E, p) <=> (Len(p) = 0 \/ (Len(p) = 1 /\ p[1] \in V)
+                                     \/ (Len(p) >= 2 /\ Rng(p) \subseteq V /\ \A i \in 1 .. Len(p) - 1 : p[i + 1] \in Succ(E, p[i])))
+
 (* ---- undirected ---- *)
 UCycles == {c \in ElemCycles(V, E) : Len(c) >= 3 /\ c[2] < c[Len(c)]}   \* one orientation each
 CcOK_ == ~Directed => IsPartition(CCs(V, E), V) /\ CCs(V, E) = SCCs(V, E)
@@ -157,6 +176,8 @@ CyclesOK == Done => CyclesOK_
 CyclesInScc == Done => CyclesInScc_
 CycleSearchOK == Done => CycleSearchOK_
 DomOK == Done => DomOK_
+IntervalOK == Done => IntervalOK_
+WalkOK == Done => WalkOK_
 CcOK == Done => CcOK_
 CliqueOK == Done => CliqueOK_
 CliqueSearchOK == Done => CliqueSearchOK_
